@@ -1,5 +1,6 @@
 import EpdVerif.AuditCmd
 import EpdVerif.Props.C01
+import EpdVerif.Props.C01Bytewise
 import EpdVerif.Props.E2EAll
 import EpdVerif.Props.Panels
 #audit_namespace EpdVerif.Props.C01
